@@ -14,7 +14,7 @@ from .. import builders as B
 from .. import ref, tlc
 from ..common import MachineryError, Run, check_exc, pmap, seed
 
-SHAPES = ["flat", "swept", "tapered", "twisted", "cambered", "dihedral", "all"]
+SHAPES = ["flat", "swept", "tapered", "twisted", "cambered", "dihedral", "all", "steep"]
 
 
 def choose_lists(tier, rng):
